@@ -133,7 +133,9 @@ static addrxlat_status c_get_page(const addrxlat_cb_t *cb, addrxlat_buffer_t *bu
 	uint64_t a = buf->addr.addr, base, size, blk, i;
 	unsigned as = (unsigned)buf->addr.as;
 	struct cpage *p;
-	if (a < 0x10000 || a >= 0xfffffffffffff000ULL) {
+	/* the same function as Hist/ReadCache.synth_get_page / synth_byte (the layout depends on
+	 * the low 16 bits of the address only, the bytes on the whole address) */
+	if ((a / 0x8000) % 2 == 0) {
 		blk = a / 0x1000;
 		if (blk % 8 == 5) return ADDRXLAT_ERR_NODATA;
 		base = blk * 0x1000; size = 0x1000;
@@ -146,7 +148,9 @@ static addrxlat_status c_get_page(const addrxlat_cb_t *cb, addrxlat_buffer_t *bu
 	p = &cpages[ncp++];
 	p->data = malloc(size); p->size = size; p->released = 0;
 	for (i = 0; i < size; ++i)
-		p->data[i] = (unsigned char)(((base + i) * 13 + (uint64_t)as * 3 + 1) & 0xff);
+		p->data[i] = (unsigned char)(((base + i) * 13 + (uint64_t)as * 3 + 1
+					      + ((base + i) >> 16) * 7 + ((base + i) >> 31) * 5
+					      + ((base + i) >> 32) * 11 + ((base + i) >> 63) * 17) & 0xff);
 	++c_gets;
 	buf->addr.addr = base;
 	buf->size = size;
